@@ -77,6 +77,9 @@ def transfers(config):
                 ["remove", "T", "B02", {"$nps": ["uint16", 300]}, {}],
                 ["aspirate", wl, "Q", ["A01"], {"$nps": ["uint8", 200]}, {}],
                 ["dispense", wl, "T", ["A01", "B01"], {"$npa": ["int8", [100, 100]]}, {}],
+                # volumes that round to 0.00 in the record are still booked
+                ["transfer", wl, "P", ["A01", "B01"], "Q", ["A01", "B01"], [0.00390625, 1.5], {}],
+                ["transfer", wl, "T", ["A02"], "U", ["A01"], [0.001953125], {}],
                 # numpy.ma masked arrays as volumes
                 ["add", "P", ["A01", "B01", "A02"], {"$ma": [[1.5, 2.5, 3.5], [False, True, False]]}, {}],
                 ["remove", "Q", ["A01", "C02"], {"$ma": [[1.5, 2.5], [True, False]]}, {}],
